@@ -305,6 +305,9 @@ class C13(Prop):
             R('PUT', h=[plain], b=Bd('clen', '0\r\n\r\nGET / HTTP/1.1\r\n\r\n')),
             R('POST', b=Bd('clen', 'hello hello hello', enc='gzip')),
             R('HEAD'),
+            R(segs=('echo', 'p' * 9000)),
+            R(q=[['a', 'v' * 8200]]),
+            R('POST', h=[{'n': 'X-Long', 'v': 'h' * 7000, 'pre': ' ', 'post': '', 'fold': []}], b=Bd('clen', 'hello')),
             R('GET', abs=True, segs=('echo', 'a')),
         ]
         out = []
@@ -346,6 +349,22 @@ class C13(Prop):
         """-> iterable of (label, [[pieces of message 0], [pieces of message 1], ...])"""
         datas = [m['bytes'] for m in msgs]
         longest = max(len(d) for d in datas)
+        if longest > 6000:
+            # size dimension (a request line / header longer than any read buffer): fixed-size reads, cuts around the
+            # buffer-size marks and around every CRLF; the all-cuts sweep is quadratic and is done on the small shapes
+            for sz in (512, 1024, 4096, 8192):
+                yield ('%d-byte-reads' % sz, [[d[i:i + sz] for i in range(0, len(d), sz)] for d in datas])
+            marks = [1, 2, 1023, 1024, 4095, 4096, 4097, 8189, 8190, 8191, 8192, 8193]
+            for j in marks:
+                yield ('cut@%d' % j, [G.split_at(d, [j]) if j < len(d) else [d] for d in datas])
+            for back in (1, 2, 3, 4, 5):
+                yield ('cut@end-%d' % back, [G.split_at(d, [len(d) - back]) for d in datas])
+            fams = [G.derived_cuts(d) for d in datas]
+            for f in range(3):
+                yield (fams[0][f][0], [G.split_at(d, fams[i][f][1]) for i, d in enumerate(datas)])
+                for c in fams[0][f][1][:6]:
+                    yield ('cut@%d' % c, [G.split_at(d, [c]) if c < len(d) else [d] for d in datas])
+            return
         for j in range(1, longest):
             yield ('cut@%d' % j, [G.split_at(d, [j]) for d in datas])
         yield ('byte-at-a-time', [[d[i:i + 1] for i in range(len(d))] for d in datas])
